@@ -4,6 +4,7 @@ CONSTANTS
   FileKinds <- AllKinds
   MaxFiles = 3
   Untils <- AllUntils
+  Headers <- NoHeader
   Decorations <- Plain
   ArgStates <- OkArgs
 INVARIANT TypeOK
